@@ -27,6 +27,23 @@ def scenarios(seed, tier):
         s = gen.gen_portfolio(random.Random(rnd.getrandbits(48)), tmax=12 if tier == 'quick' else 20, adv_names=(i % 3 == 0),
                               allow_freq=(i % 4 != 3))
         s['split'] = (i % 4 == 3)
+        r1 = random.Random(rnd.getrandbits(48))
+        if s['split'] and i % 8 == 7:
+            gen.make_late_start(s, r1)      # nothing is active in the first interval(s)
+        if i % 10 == 4:
+            # a scaled asset over a base whose LAST variables have no mapping row (orders without a step in the horizon)
+            g = s['grid']
+            T = g['T_nominal']
+            nd = r1.choice([x for x in s['nodes'] if not x.endswith('_i1')])
+            base = gen.gen_orderbook(r1, g, s['prices'], T, 'sob_b', nd, allow_mip=False)
+            o = base['args']['orders']
+            if gen.ok_local(gen.P(g, T + 2), g) and gen.ok_local(gen.P(g, T + 5), g):
+                o['start'].append(gen.dtv(gen.P(g, T + 2)))
+                o['end'].append(gen.dtv(gen.P(g, T + 5)))
+                o['capa'].append(1.0)
+                o['price'].append(3.0)
+            s['assets'].append({'type': 'ScaledAsset', 'name': 'sob', 'base': base,
+                                'args': {'min_scale': 0.0, 'max_scale': 2.0, 'norm_scale': r1.choice([1.0, 2.0]), 'fix_costs': gen.q8(r1, 0.125, 1)}})
         yield 'gen%d' % i, s
 
 
@@ -198,6 +215,14 @@ def run_case(scn, drv):
                     break
             jm = rs['op'].mapping
             ntot = sum(len(o.c) for o in rs['op'].ops)
+            # the joint mapping names ORIGINAL steps: every dispatch row sits at a step at which the unsplit problem has a
+            # dispatch row of the same asset at the same node (an asset is active at the same steps either way)
+            if len(jm) and len(op.mapping):
+                key = lambda mm: set((str(a), str(nd), int(t)) for a, nd, ty, t in zip(mm['asset'], mm['node'], mm['type'], mm['time_step']) if ty == 'd')
+                only_split = sorted(key(jm) - key(op.mapping))
+                if only_split:
+                    r['violations'].append({'oracle': 'mapping_structure', 'detail': 'split: the joint mapping has dispatch rows at (asset, node, step) %s where the unsplit problem has none' % only_split[:3],
+                                            'facts': {'what': 'joint_steps'}})
             # the joint mapping describes the joint vector: block k of it is interval k's own mapping, shifted by the
             # number of variables before it (cost and bounds of the block are those of the interval problem)
             off = 0
